@@ -39,6 +39,7 @@ import (
 	"github.com/kklash/bitcoinlib/ecc"
 	"github.com/kklash/bitcoinlib/rpc"
 	"github.com/kklash/bitcoinlib/script"
+	"github.com/kklash/bitcoinlib/tx"
 	"github.com/kklash/bitcoinlib/varint"
 	"github.com/kklash/bitcoinlib/wif"
 )
@@ -277,7 +278,15 @@ func (c *c17runner) do(op string, args []string, tag string, inputLen int, nontr
 
 func strHex(s string) string { return hx([]byte(s)) }
 
-var boundaryCounts = []uint64{0, 1, 0xfc, 0xfd, 0xffff, 1 << 31, 1<<32 - 1, 1 << 63, ^uint64(0)}
+// the boundary values of the property's quantifier, plus the library's own limits (taken from the
+// exported constants, so they follow the source) and their neighbours: a length just inside a limit
+// is accepted by the guard and must still not be allocated before the data arrives
+var boundaryCounts = []uint64{0, 1, 0xfc, 0xfd, 0xffff, 1 << 31, 1<<32 - 1, 1 << 63, ^uint64(0),
+	tx.WitnessMaximumSize, tx.WitnessMaximumSize - 1, tx.WitnessMaximumSize + 1, tx.WitnessMaximumSize / 2, tx.WitnessMaximumSize / 8,
+	constants.BlockMaxSize, constants.BlockMaxSize + 1, constants.BlockMaxSize - 1,
+	tx.InputsMaximumCount, tx.InputsMaximumCount + 1, tx.OutputsMaximumCount, tx.OutputsMaximumCount + 1,
+	tx.WitnessChunkCountMaximum, tx.WitnessChunkCountMaximum + 1,
+	constants.BlockMaxSize / tx.MinimumSizeNoWitness, constants.BlockMaxSize/tx.MinimumSizeNoWitness + 1}
 
 func compactIn(width int, v uint64) []byte {
 	switch width {
